@@ -165,14 +165,16 @@ static long run_ops(int k){
       { int b_ = o->a; lock_(k, b_);
         while (bufcnt[b_] == 0) cwait_(k, 2 * b_ + 1, b_);
         bufcnt[b_]--; consumed[b_]++;
-        csig_(k, 2 * b_, o->b);
-        unlock_(k, b_); break; }
+        if (o->c) { unlock_(k, b_); csig_(k, 2 * b_, o->b); }     /* c = 1: the common "unlock, then signal" idiom */
+        else { csig_(k, 2 * b_, o->b); unlock_(k, b_); }
+        break; }
     case OP_CSIG: /* a = buffer: produce one item */
       { int b_ = o->a; lock_(k, b_);
         while (bufcnt[b_] == bufcap[b_]) cwait_(k, 2 * b_, b_);
         bufcnt[b_]++; produced[b_]++;
-        csig_(k, 2 * b_ + 1, o->b);
-        unlock_(k, b_); break; }
+        if (o->c) { unlock_(k, b_); csig_(k, 2 * b_ + 1, o->b); }
+        else { csig_(k, 2 * b_ + 1, o->b); unlock_(k, b_); }
+        break; }
     case OP_WAITV: /* gate: wait under mutex a / cond 2a until vars[a] == b */
       { int g = o->a; lock_(k, g); while (vars[g] != o->b) cwait_(k, 2 * g, g); unlock_(k, g); break; }
     case OP_CBC: /* gate: set vars[a] = b and broadcast (c = 1) or signal (c = 0) */
@@ -251,6 +253,18 @@ static long run_ops(int k){
 
 /* wait (yielding) until every other worker is idle and this worker's queue is empty, so
    that detached threads have completely finished before the trace is closed */
+/* custom steal function installed through the work-stealing API: picks a random victim and takes its
+   oldest thread unless the decision callback declines it (mode 1: every second candidate, mode 2: always
+   the first time a candidate is seen) */
+static int ws_mode = 0; static long ws_calls = 0; static myth_thread_t ws_last = 0;
+static int ws_decide(myth_thread_t th, void *ud){ (void)ud; ws_calls++;
+  if (ws_mode == 1) return (ws_calls % 2) == 0;
+  if (ws_mode == 2){ if (th != ws_last){ ws_last = th; return 0; } return 1; }
+  return 1; }
+static myth_thread_t ws_steal(int rank){ int nw = myth_get_num_workers(); int v;
+  if (nw <= 1) return 0;
+  v = myth_wsapi_rand(); if (v == rank) v = (v + 1) % nw;
+  return myth_wsapi_runqueue_take(v, ws_decide, 0); }
 static void quiesce(void){
   int guard = 0;
   for (;;){
@@ -273,7 +287,7 @@ int main(int argc, char **argv){
   for (i = 0; i < MAXO; i++){ bar_n[i] = 2; jc_n[i] = 1; bufcap[i] = 1; }
   if (fscanf(fp, "%d", &nini) != 1) return 2;
   for (i = 0; i < nini; i++){ int kind, idx, n; if (fscanf(fp, "%d %d %d", &kind, &idx, &n) != 3) return 2;
-    if (kind == 1) bar_n[idx] = n; else if (kind == 2) jc_n[idx] = n; else if (kind == 3) bufcap[idx] = n; }
+    if (kind == 1) bar_n[idx] = n; else if (kind == 2) jc_n[idx] = n; else if (kind == 3) bufcap[idx] = n; else if (kind == 4) ws_mode = n; }
   for (i = 0; i < nbodies; i++){
     if (fscanf(fp, "%d", &bodies[i].n) != 1) return 2;
     bodies[i].ops = calloc(bodies[i].n + 1, sizeof(op_t));
@@ -291,6 +305,7 @@ int main(int argc, char **argv){
     myth_join_counter_init(&jcs[i], 0, jc_n[i]); myth_uncond_init(&ucs[i]); myth_felock_init(&fes[i], 0);
     onces[i].state = 0;
   }
+  if (ws_mode) myth_wsapi_set_stealfunc(ws_steal);
   vrt_arm(&vo, myth_self());
   U("U_BodyStart", 2, 0L, 0L);
   run_ops(0);
